@@ -486,6 +486,10 @@ func (e *esdtNFTMultiTransfer) addNFTToDestination(
 		}
 	}
 	esdtDataToTransfer.Value.Add(esdtDataToTransfer.Value, currentESDTData.Value)
+	if esdtDataToTransfer.TokenMetaData == nil {
+		// the freeze flag belongs to the account, it does not travel with a fungible token
+		esdtDataToTransfer.Properties = currentESDTData.Properties
+	}
 
 	_, err = saveESDTNFTToken(userAccount, esdtTokenKey, esdtDataToTransfer, e.marshalizer, e.pauseHandler, isReturnCallWithError)
 	if err != nil {
